@@ -100,6 +100,42 @@ fn child(order_shutdown_first: bool, sig: i32, status: i32, hist: &[Op], moved: 
     }
 }
 
+/// `register_conditional_default` on a signal whose default is to terminate: dies in the first delivery
+/// with the condition true - by that signal, or by the documented abort fall-back when `race` arms the
+/// environment deviation "another thread installs a handler of its own right before the re-raise".
+fn child_default(sig: i32, hist: &[Op], race: bool, e: &mut Emit) {
+    PIPE_FD.store(e.fd(), Ordering::SeqCst);
+    unsafe {
+        libc::atexit(at_exit_hook);
+        let rl = libc::rlimit { rlim_cur: 0, rlim_max: 0 };
+        libc::setrlimit(libc::RLIMIT_CORE, &rl);
+    }
+    let cond = Arc::new(AtomicBool::new(false));
+    signal_hook::flag::register_conditional_default(sig, cond.clone()).unwrap();
+    if race {
+        RAISE_RACE_SIG.store(sig, Ordering::SeqCst);
+    }
+    for (k, op) in hist.iter().enumerate() {
+        STEP.store(k, Ordering::SeqCst);
+        match op {
+            Op::Deliver => {
+                // not through raise(): every raise() the interposer sees comes from the library
+                unsafe {
+                    libc::syscall(libc::SYS_tgkill, libc::getpid(), libc::syscall(libc::SYS_gettid) as libc::pid_t, sig);
+                }
+            }
+            Op::True => cond.store(true, Ordering::SeqCst),
+            Op::False | Op::Other => cond.store(false, Ordering::SeqCst),
+        }
+        e.line(&format!("step-done {}", k));
+    }
+    e.line(&format!("library-raises {}", RAISE_RACE_HITS.load(Ordering::SeqCst)));
+    e.line("survived");
+    unsafe {
+        libc::_exit(0);
+    }
+}
+
 /// Model: returns the index of the fatal delivery, if any.
 fn model(order_shutdown_first: bool, hist: &[Op]) -> Option<usize> {
     let mut b = false;
@@ -165,17 +201,77 @@ pub fn run(tier: Tier) -> BResult {
         cells.push((false, libc::SIGTERM, st, vec![Op::Deliver], false));
         cells.push((true, libc::SIGINT, st, vec![Op::Deliver, Op::False, Op::Deliver, Op::Deliver], st % 2 == 1));
     }
+    // conditional default: histories of length <= 3 x termination signals x {no race, racing handler installation}
+    let mut dcells: Vec<(i32, Vec<Op>, bool)> = Vec::new();
+    for &sig in term.iter() {
+        for h in all.iter().filter(|h| h.len() <= 3 && h.contains(&Op::Deliver) && !h.contains(&Op::Other)) {
+            for race in [false, true] {
+                dcells.push((sig, h.clone(), race));
+            }
+        }
+    }
     let cells2 = cells.clone();
-    let probes = run_cells(cells.len(), 16, Duration::from_secs(30), move |i, e| {
-        let (o, s, st, h, mv) = &cells2[i];
-        child(*o, *s, *st, h, *mv, e);
+    let dcells2 = dcells.clone();
+    let nmain = cells.len();
+    let probes = run_cells(cells.len() + dcells.len(), 16, Duration::from_secs(30), move |i, e| {
+        if i < nmain {
+            let (o, s, st, h, mv) = &cells2[i];
+            child(*o, *s, *st, h, *mv, e);
+        } else {
+            let (s, h, race) = &dcells2[i - nmain];
+            child_default(*s, h, *race, e);
+        }
     });
     let mut violations = Vec::new();
     let mut samples = Vec::new();
     let mut classes: std::collections::BTreeMap<String, u64> = Default::default();
     let mut distinct = std::collections::HashSet::new();
     let mut transitions = 0u64;
-    for (i, p) in probes.iter().enumerate() {
+    for (i, p) in probes.iter().enumerate().skip(nmain) {
+        let (sig, h, race) = &dcells[i - nmain];
+        transitions += h.len() as u64;
+        // fatal delivery: the first one with the condition true
+        let mut b = false;
+        let mut fatal: Option<usize> = None;
+        for (k, op) in h.iter().enumerate() {
+            match op {
+                Op::Deliver if b => {
+                    fatal = Some(k);
+                    break;
+                }
+                Op::True => b = true,
+                Op::False | Op::Other => b = false,
+                _ => {}
+            }
+        }
+        let case = json!({"entry": "register_conditional_default", "signal": sig, "history": h.iter().map(|o| format!("{:?}", o)).collect::<Vec<_>>(), "environment": if *race { "another thread installs its own handler right before the library re-raises the signal" } else { "undisturbed" }, "model_fatal_delivery": fatal});
+        *classes.entry(format!("conditional-default:{}:{}", if *race { "raced" } else { "plain" }, if fatal.is_some() { "dies" } else { "survives" })).or_insert(0) += 1;
+        distinct.insert((*race, fatal, p.fate.describe(), 100 + h.len()));
+        let mut bad: Option<String> = None;
+        match fatal {
+            None => {
+                if p.fate != Fate::Exited(0) || !p.has("survived") {
+                    bad = Some(format!("the condition is false in every delivery, but the process {}", p.fate.describe()));
+                }
+            }
+            Some(k) => {
+                let ok_fate = p.fate == Fate::Signaled(*sig) || (*race && p.fate == Fate::Signaled(libc::SIGABRT));
+                if !ok_fate {
+                    bad = Some(format!("must be terminated in delivery #{} (by signal {}{}), but it {}", k, sig, if *race { " or by the abort fall-back" } else { "" }, p.fate.describe()));
+                } else if p.has(&format!("step-done {}", k)) {
+                    bad = Some(format!("terminated later than in delivery #{}", k));
+                } else if k > 0 && !p.has(&format!("step-done {}", k - 1)) {
+                    bad = Some(format!("terminated earlier than delivery #{}", k));
+                } else if p.has("atexit-ran") {
+                    bad = Some("exit-time hooks ran".into());
+                }
+            }
+        }
+        if let Some(m) = bad {
+            violations.push(BViolation { message: format!("C15: register_conditional_default / signal {} / history {:?}{}: {}", sig, h, if *race { " / a handler installed by another thread right before the re-raise" } else { "" }, m), case });
+        }
+    }
+    for (i, p) in probes.iter().enumerate().take(nmain) {
         let (order, sig, status, h, moved) = &cells[i];
         transitions += h.len() as u64;
         let fatal = model(*order, h);
@@ -220,14 +316,14 @@ pub fn run(tier: Tier) -> BResult {
     BResult {
         states: distinct.len() as u64,
         transitions,
-        evaluations: cells.len() as u64,
+        evaluations: (cells.len() + dcells.len()) as u64,
         distinct: distinct.len() as u64,
         samples,
         per_class: json!(classes),
         violations,
         exhaustive: true,
         caps: vec![],
-        rule: format!("every history of length 1..{} over {{deliver, app stores true, app stores false, app stores another value}} containing a delivery x both registration orders x termination signals (full depth for all, all lengths for the first) x how the condition is shared (a clone; or, with the first signal, the only strong handle moved into the registration while the application arms through a weak one) + exit statuses {:?}.. on canonical histories; reference model = one boolean; distinct = distinct (order, fatal delivery index, child fate, length)", depth, &statuses[..statuses.len().min(4)]),
+        rule: format!("every history of length 1..{} over {{deliver, app stores true, app stores false, app stores another value}} containing a delivery x both registration orders x termination signals (full depth for all, all lengths for the first) x how the condition is shared (a clone; or, with the first signal, the only strong handle moved into the registration while the application arms through a weak one) + exit statuses {:?}.. on canonical histories; reference model = one boolean; plus register_conditional_default: every history of length <= 3 over (deliver, arm, disarm) x termination signals x (undisturbed / another thread installs a handler right before the library re-raises, injected at the interposed raise) - terminated in exactly the first armed delivery; distinct = distinct (order, fatal delivery index, child fate, length)", depth, &statuses[..statuses.len().min(4)]),
         assumptions: vec!["exit-time hooks observed through libc::atexit".into()],
     }
 }
